@@ -2,7 +2,8 @@
    Statements only; proofs in C20/Proofs.v.  Model: C20/Model.v. *)
 From Coq Require Import ZArith List Bool Lia.
 Import ListNotations.
-From Cffi Require Import C20.Model C20.Proofs.
+From Cffi Require C03.Mem C03.Store C03.StoreProofs C02.Model C02.Proofs C15.Model.
+From Cffi Require Import C20.Model C20.Leaves C20.Proofs.
 Open Scope Z_scope.
 
 (* ffi.new(T, init) = a zero block of the size computed by the sizing pass, then the same
@@ -34,7 +35,9 @@ Print Assumptions C20_new_is_literal_assign.
    (wf_type: fields inside their struct, bit-field units inside, flexible arrays flagged), every
    initialiser (lists, tuples, dicts, bytes, str counted in units of the item type, cdata,
    lengths; valid or not) and any fuel, no byte is written outside the block whose size the
-   sizing pass computed (a write outside it is the model's SegV). *)
+   sizing pass computed (a write outside it is the model's SegV) — and no leaf store runs into C
+   undefined behaviour (C03's UB / C02's BUB outcomes are mapped to SegV as well; wf_type contains
+   C02's placement condition for bit-fields). *)
 Theorem C20_sizing_dominates : forall fuel T init,
   wf_type (new_target T) = true -> new_bytes fuel T init <> Err SegV.
 Proof. exact sizing_dominates. Qed.
@@ -199,4 +202,92 @@ Example C20_example_sizeof :
   = Ok ([5;0;0;0; 1;0;0;0; 7;0;0;0; 8;0;0;0; 9;0;0;0], Some 20) /\
   sizeof_cdata (NewPtr t_X) (Some 20) = 20 /\
   ctor_keys 0 (agg_fields t_U) = [0] /\ ctor_keys 0 (agg_fields t_X) = [0; 1].
+Proof. repeat split; vm_compute; reflexivity. Qed.
+
+(* ---- "which values are written": the leaves of the filling pass are not C20's own.
+   Model.v calls the functions that C03, C02 and C15 prove correct and tie to regenerated source:
+     C03.Store.convert_from_object_int  (C03_gen_store_refines: = the regenerated statement lists)
+     C02.Model.bf_write                 (C02_gen_write_refines: = the regenerated mask/shift program)
+     C15.Model.convert_array / new_array_length / as_single_char16,32   (C15/Gen.v, regenerated)
+   The first theorem of each group is the identification (by construction of the model: it is what
+   makes the C20 correspondence run exercise those models); the others are what follows for ffi.new. *)
+Theorem C20_prim_is_C03 : forall k s z old, int_kind k = true ->
+  conv_prim k s (VInt z) old = of_c03 (C03.Store.convert_from_object_int (ity_of k s) z old).
+Proof. exact conv_prim_int. Qed.
+Print Assumptions C20_prim_is_C03.
+
+(* closed form (what C20's private copy used to define): accepted iff in C03's range, then the
+   little-endian bytes; otherwise OverflowError *)
+Theorem C20_prim_closed_form : forall k s z old, int_kind k = true -> 1 <= s <= 8 ->
+  conv_prim k s (VInt z) old =
+  if C03.Store.in_range (ity_of k s) z then Ok (le_bytes s (z mod 2 ^ 64)) else Err OverflowError.
+Proof. exact prim_closed_form. Qed.
+Print Assumptions C20_prim_closed_form.
+
+Theorem C20_prim_reads_back : forall k s z old bs, int_kind k = true -> 1 <= s <= 8 ->
+  conv_prim k s (VInt z) old = Ok bs ->
+  C03.Store.in_range (ity_of k s) z = true /\ C03.Store.read_int (ity_of k s) bs = z.
+Proof. exact prim_roundtrip. Qed.
+Print Assumptions C20_prim_reads_back.
+
+Theorem C20_bitfield_is_C02 : forall k s sh w z old,
+  conv_bitfield k s sh w (VInt z) old = of_c02 (C02.Model.bf_write (ity_of k s) w sh z old).
+Proof. exact bitfield_is_c02. Qed.
+Print Assumptions C20_bitfield_is_C02.
+
+(* wf_type's bit-field clause (checked on every layout the harness reads) is C02's placement *)
+Theorem C20_wf_bitfield_is_placement : forall k s sh w,
+  0 < s -> ((0 <? w) && (sh + w <=? 8 * s) && (s <=? 8)) = true -> 0 <= sh -> (k = KBool -> s = 1) ->
+  C02.Proofs.placement (ity_of k s) w sh.
+Proof. exact wf_bitfield_placement. Qed.
+Print Assumptions C20_wf_bitfield_is_placement.
+
+(* a bit-field initialiser that is accepted reads back (C02's bf_read) as z, and every bit of the
+   storage unit outside [sh, sh+w) keeps its value *)
+Theorem C20_bitfield_reads_back : forall k s sh w z old bs,
+  C02.Proofs.placement (ity_of k s) w sh -> C02.Proofs.unit_ok (ity_of k s) old ->
+  conv_bitfield k s sh w (VInt z) old = Ok bs ->
+  C02.Model.bf_read (ity_of k s) w sh bs =
+    C02.Model.BOk (if C03.Store.isigned (ity_of k s) && (w =? 1) && (z =? 1) then -1 else z) /\
+  forall i, 0 <= i -> ~ (sh <= i < sh + w) ->
+    Z.testbit (C03.Mem.read_raw_unsigned bs) i = Z.testbit (C03.Mem.read_raw_unsigned old) i.
+Proof. exact bitfield_roundtrip. Qed.
+Print Assumptions C20_bitfield_reads_back.
+
+Theorem C20_char_array_is_C15 : forall fuel s len off c m,
+  fill (S fuel) (LArr (LPrim KChar s) len) off (VStr c) m =
+  if s =? 1 then Err TypeError
+  else bind (of_c15 (C15.Model.convert_array (ety_of s) len (C15.Model.PStr c)))
+            (fun us => write off (flat_map (le_bytes s) us) m).
+Proof. exact char_array_is_c15_str. Qed.
+Print Assumptions C20_char_array_is_C15.
+
+Theorem C20_byte_array_is_C15 : forall fuel k s len off b m,
+  k = KChar \/ k = KSigned \/ k = KUnsigned ->
+  fill (S fuel) (LArr (LPrim k s) len) off (VBytes b) m =
+  if s =? 1 then bind (of_c15 (C15.Model.convert_array C15.Model.E8 len (C15.Model.PBytes b)))
+                      (fun src => write off src m)
+  else Err TypeError.
+Proof. exact char_array_is_c15_bytes. Qed.
+Print Assumptions C20_byte_array_is_C15.
+
+(* the units C15 stores: as many as C15's new_array_length says (minus the terminator when the units
+   fill the array exactly), never more than the declared length; only Index/Type/ValueError *)
+Theorem C20_char_array_units : forall t len v us,
+  C15.Model.convert_array t len v = C15.Spec.Ok us ->
+  let n := C15.Model.new_array_length t v - 1 in
+  ((0 <=? len) && (len <? n)) = false /\ mlen us = if n =? len then n else n + 1.
+Proof. exact c15_convert_len. Qed.
+Print Assumptions C20_char_array_units.
+
+Example C20_example_leaves :
+  (* a code point above 0x10FFFF cannot be stored in a char16_t array (C15's as_char16) *)
+  new_bytes FUEL (NewArr (LPrim KChar 2) 4) (VStr [1114112]) = Err ValueError /\
+  new_bytes FUEL (NewArr (LPrim KChar 2) (-1)) (VStr [97; 128512]) = Ok [97;0; 61;216; 0;222; 0;0] /\
+  new_bytes FUEL (NewArr (LPrim KChar 4) 2) (VStr [97; 128512]) = Ok [97;0;0;0; 0;246;1;0] /\
+  new_bytes FUEL (NewPtr (LPrim KBool 1)) (VInt 2) = Err OverflowError /\
+  new_bytes FUEL (NewPtr (LPrim KSigned 2)) (VInt (-2)) = Ok [254; 255] /\
+  new_bytes FUEL (NewPtr (LPrim KUnsigned 8)) (VInt (2 ^ 64)) = Err OverflowError /\
+  (* a bit-field outside its unit is not a well-formed layout *)
+  wf_type (LAgg 4 false [(t_int, 0, 30, 5, 0)]) = false /\ wf_type t_B = true.
 Proof. repeat split; vm_compute; reflexivity. Qed.
